@@ -44,7 +44,7 @@ pub fn all() -> Vec<Prop> {
         Prop { id: "C10", run: c10::run, replay: c10::replay, rule: c10::RULE, assumptions: &["the structural check is my strict reader's reading of ISO 32000-1 7.5", "operation equality is C08's structural description"] },
         Prop { id: "C11", run: c11::run, replay: c11::replay, rule: c11::RULE, assumptions: &["object streams and filters are produced by the harness's own writer and encoders"] },
         Prop { id: "C12", run: c12::run, replay: c12::replay, rule: c12::RULE, assumptions: &["outcomes are compared as digests of canonical values or root-cause error kinds (wrappers Try/Shared/FromPrimitive peeled)"] },
-        Prop { id: "C13", run: c13::run, replay: c13::replay, rule: c13::RULE, assumptions: &["interleavings inside globalcache's own mutex/condvar are exercised by real threads (stress), not enumerated", "a thread that does not reach a yield point within 30 ms is treated as running/blocked and the controller moves on, so a schedule is a valid interleaving but not always exactly reproducible"] },
+        Prop { id: "C13", run: c13::run, replay: c13::replay, rule: c13::RULE, assumptions: &["interleavings inside globalcache's own mutex/condvar are exercised by real threads (stress), not enumerated", "a thread that the kernel reports sleeping outside a yield point (or that does not reach one within 30 ms) is treated as blocked and the controller moves on, so a schedule is a valid interleaving but not always exactly reproducible"] },
         Prop { id: "C14", run: c14::run, replay: c14::replay, rule: c14::RULE, assumptions: &["same oracle and resource bound as C01", "fragments are written by the harness writer, so the syntax is always valid"] },
         Prop { id: "C15", run: c15::run, replay: c15::replay, rule: c15::RULE, assumptions: &["the model table in harness/src/engine/schema.rs (full instances, required keys, defaults) is my reading of the #[pdf(..)] attributes and of ISO 32000-1", "values whose writer is explicitly unimplemented (unimplemented!/todo!) or returns Err are outside 'can both read and write' and only counted", "Font is not treated as a catch-all model: its private _other copy is not a #[pdf(other)] field"] },
         Prop { id: "C16", run: c16::run, replay: c16::replay, rule: c16::RULE, assumptions: &["reference decoders in harness/src/engine/filters.rs follow ISO 32000-1 7.4 (LZW cross-checked against weezl with code size 8 in unit tests)", "flate2/miniz_oxide is a correct zlib implementation"] },
